@@ -104,7 +104,7 @@ async fn bgzf_write_history(level: Option<u8>, workers: usize, data: &[u8], ops:
                 w.write_all(&data[cur..cur + len]).await.map_err(|e| format!("op {i} write_all: {e}"))?;
                 cur += len;
             }
-            Op::Flush => w.flush().await.map_err(|e| format!("op {i} flush: {e}"))?,
+            Op::Flush | Op::TryFinish => w.flush().await.map_err(|e| format!("op {i} flush: {e}"))?,
             Op::Tell => {}
         }
     }
@@ -310,6 +310,7 @@ impl C16 {
             AScenario::BgzfWriter { level, payload, ops } => {
                 let comp = "bgzf::async::io::Writer";
                 let data = payload.bytes();
+                let ops = &c01::without_try_finish(ops);
                 let sink = SimAsyncWrite::new(p.aio.clone(), counters.clone());
                 let s2 = sink.clone();
                 let r = aexec::run(&p.aio, counters.clone(), || bgzf_write_history(*level, p.workers, &data, ops, s2));
